@@ -1053,13 +1053,13 @@ def _prng_source(ctx):
     """TJ.Props.C15Gen: the terms REGENERATED from src/tinyjambu-prng.c (prng_feed, prng_reseed, prng_generate, prng_set_reseed_limit, prng_free, hash_df, hash_prefixed)
     over the regenerated hash equal the hand model's feed / reseed / genLoop / setLimit / free with a user entropy callback"""
     import taint
-    ok, stats = taint.regenerate(ctx, ('TJ.Props.C15Gen',))
+    ok, stats = taint.regenerate(ctx, ('TJ.Props.C15Gen', 'TJ.Props.C16Gen'))
     ctx.extra_cov['minic'] = {k: stats.get(k) for k in ('functions', 'translated', 'errors', 'build_ok')}
     if stats.get('errors'): ctx.broken_proofs.append('tools/c2lean.py cannot translate the current sources: ' + '; '.join(stats['errors'][:3]))
-    elif not ok: ctx.broken_proofs.append('TJ.Props.C15Gen (regenerated tinyjambu_prng_generate / _reseed / _feed / _set_reseed_limit / _free and their callees = the PRNG model) no longer checks: ' + re.sub(r'\s+', ' ', stats.get('build_log_tail', ''))[-600:])
+    elif not ok: ctx.broken_proofs.append('TJ.Props.C15Gen / C16Gen (regenerated tinyjambu_prng_generate / _reseed / _feed / _set_reseed_limit / _free and their callees = the PRNG model, for single calls and for every history) no longer check: ' + re.sub(r'\s+', ' ', stats.get('build_log_tail', ''))[-600:])
 
 def check_C15(ctx):
-    ctx.build(); _prng_source(ctx); ctx.lean(extra_modules=['TJ.Props.C15Gen'])
+    ctx.build(); _prng_source(ctx); ctx.lean(extra_modules=['TJ.Props.C15Gen', 'TJ.Props.C16Gen'])
     ctx.equality_streams.update({'p.histories': 'TJ.Props.C15 (refinement of SP 800-90A Hash_DRBG)'})
     lines, impl = _prng_streams(ctx, ('C15',))
     _prng_reference(ctx, lines, impl, 6 if ctx.tier == 'quick' else 40)
@@ -1088,7 +1088,7 @@ def _exhaustive_prng(ctx, depth):
     _prng_predicates(ctx, lines, impl, ('C16',))
 
 def check_C16(ctx):
-    ctx.build(); _prng_source(ctx); ctx.lean(extra_modules=['TJ.Props.C15Gen'])
+    ctx.build(); _prng_source(ctx); ctx.lean(extra_modules=['TJ.Props.C15Gen', 'TJ.Props.C16Gen'])
     _prng_streams(ctx, ('C16',))
     _exhaustive_prng(ctx, 3 if ctx.tier == 'quick' else 4)
     # directed histories: a limit lowered below what was already generated, feeds, the limit raised again; limits beyond the 1 MiB clamp
